@@ -123,6 +123,8 @@ pub enum Bucket {
     NativeUd,
     /// outcome classes disagree (incl. emulator panic)
     OutcomeMismatch,
+    /// native #GP on a transfer to a non-canonical target: a fault class no property lists
+    NativeNonCanonical,
 }
 
 pub struct CaseResult {
@@ -268,6 +270,19 @@ impl NatWorker {
             (_, s) if s == libc::SIGILL => {
                 bucket = Bucket::NativeUd;
             }
+            (_, s)
+                if s == libc::SIGSEGV
+                    && n.si_addr == 0
+                    && n.rip == c.sigma.rip
+                    && matches!(
+                        i.flow_control(),
+                        iced_x86::FlowControl::Return
+                            | iced_x86::FlowControl::IndirectBranch
+                            | iced_x86::FlowControl::IndirectCall
+                    ) =>
+            {
+                bucket = Bucket::NativeNonCanonical;
+            }
             (StepOut::Err(msg), _) if emu::is_unimplemented_msg(msg) => {
                 bucket = Bucket::Unimplemented;
             }
@@ -310,6 +325,20 @@ impl NatWorker {
         }
     }
 
+    /// little-endian value of `n` bytes at `addr` in the native stack page, if inside it
+    fn native_stack_value(&self, addr: u64, n: usize) -> Option<u64> {
+        if addr < STACK || addr + n as u64 > STACK + PAGE {
+            return None;
+        }
+        let v = self.stub.view(Region::Stack);
+        let o = (addr - STACK) as usize;
+        let mut x = 0u64;
+        for k in 0..n {
+            x |= (v[o + k] as u64) << (8 * k);
+        }
+        Some(x)
+    }
+
     fn compare(
         &self,
         i: &Instruction,
@@ -321,9 +350,14 @@ impl NatWorker {
     ) {
         // RIP
         let erip = emu::rip(ax);
+        let sp_inc = if i.is_stack_instruction() { i.stack_pointer_increment() as i64 } else { 0 };
+        let old_rsp = c.sigma.gpr[4];
         if erip != n.rip {
+            // role: a return that took its target from the slot above the one hardware pops
+            let from_above = i.flow_control() == iced_x86::FlowControl::Return
+                && self.native_stack_value(old_rsp.wrapping_add(8), 8) == Some(erip);
             diffs.push(Diff {
-                observable: "rip".into(),
+                observable: if from_above { "rip:target-from-slot-above".into() } else { "rip".into() },
                 detail: format!("emu rip {erip:#x} native {:#x}", n.rip),
             });
         }
@@ -353,6 +387,12 @@ impl NatWorker {
                         };
                         if (eg[k] ^ n.gpr[k]) & !himask == 0 {
                             "dst-upper".to_string()
+                        } else if sp_inc > 0
+                            && self.native_stack_value(old_rsp.wrapping_add(sp_inc as u64), sp_inc as usize)
+                                == Some(eg[k] & mask)
+                        {
+                            // a pop that loaded the slot above the one hardware pops
+                            "dst:value-from-slot-above".to_string()
                         } else {
                             "dst".to_string()
                         }
@@ -449,16 +489,29 @@ impl NatWorker {
                 }
                 let ew: Vec<usize> = (0..PAGE as usize).filter(|k| ea.data[*k] != pre[*k]).collect();
                 let nw: Vec<usize> = (0..PAGE as usize).filter(|k| nat[*k] != pre[*k]).collect();
-                let rel = if *r == Region::Stack {
-                    if ew == nw {
-                        "value".to_string()
-                    } else if !ew.is_empty() && !nw.is_empty() {
-                        format!("shift({:+})", ew[0] as i64 - nw[0] as i64)
-                    } else if ew.is_empty() {
-                        "emu-no-write".to_string()
+                let rel = if *r == Region::Stack && sp_inc < 0 {
+                    // role of the differing bytes: hardware stores the pushed value at the new
+                    // top of stack [rsp_after, +size); a store one slot above it is the old top
+                    let size = (-sp_inc) as u64;
+                    let hw = n.gpr[4];
+                    let allowed = |k: usize| {
+                        let a = STACK + k as u64;
+                        a >= hw && a < hw.wrapping_add(2 * size)
+                    };
+                    let differing: Vec<usize> = (0..PAGE as usize).filter(|k| ea.data[*k] != nat[*k]).collect();
+                    let emu_slot_ok = (0..size).all(|b| {
+                        // the emulator's slot holds what hardware stored one slot below
+                        let ek = (hw.wrapping_add(size).wrapping_add(b).wrapping_sub(STACK)) as usize;
+                        let hk = (hw.wrapping_add(b).wrapping_sub(STACK)) as usize;
+                        ek < PAGE as usize && hk < PAGE as usize && ea.data[ek] == nat[hk]
+                    });
+                    if differing.iter().all(|k| allowed(*k)) && emu_slot_ok {
+                        "store-one-slot-above".to_string()
                     } else {
-                        "emu-extra-write".to_string()
+                        "other".to_string()
                     }
+                } else if *r == Region::Stack {
+                    "other".to_string()
                 } else {
                     // role, not geometry: inside or outside the bytes of the memory operand
                     let ext = eval_ea(c.at_rip(), c.sigma.rip, &c.sigma.gpr, c.sigma.fs, c.sigma.gs)
@@ -776,6 +829,7 @@ pub struct NatStats {
     pub both_fault: u64,
     pub unimplemented: u64,
     pub native_ud: u64,
+    pub native_noncanonical: u64,
     pub outcome_mismatch: u64,
     pub cases_with_diff: u64,
     pub ok_forms: BTreeSet<String>,
@@ -800,6 +854,7 @@ impl NatStats {
             "both_fault": self.both_fault,
             "unimplemented": self.unimplemented,
             "native_ud": self.native_ud,
+            "native_noncanonical": self.native_noncanonical,
             "outcome_mismatch": self.outcome_mismatch,
             "cases_with_diff": self.cases_with_diff,
             "ok_forms": self.ok_forms,
@@ -817,6 +872,7 @@ impl NatStats {
         self.both_fault += v["both_fault"].as_u64().unwrap_or(0);
         self.unimplemented += v["unimplemented"].as_u64().unwrap_or(0);
         self.native_ud += v["native_ud"].as_u64().unwrap_or(0);
+        self.native_noncanonical += v["native_noncanonical"].as_u64().unwrap_or(0);
         self.outcome_mismatch += v["outcome_mismatch"].as_u64().unwrap_or(0);
         self.cases_with_diff += v["cases_with_diff"].as_u64().unwrap_or(0);
         self.native_steps += v["native_steps"].as_u64().unwrap_or(0);
